@@ -115,6 +115,23 @@ pub fn ops() -> Vec<(&'static str, Op)> {
         .with_item_and_weight(Tournament::binary(), 2).expect("weights"));
     sel!("dyn_weighted", DynWeighted::new(Best, 1).with_selector(Lexicase::new(4), 3).with_selector(Random, 2));
     {
+        // a lexicase selection that FAILED just before on the same thread (an empty population; a
+        // population lacking results) leaves nothing behind: every second call is preceded by two
+        let calls = std::sync::atomic::AtomicU64::new(0);
+        let sel = Lexicase::new(4);
+        v.push(("lexicase_after_failures", Box::new(move |a, r| {
+            let pop = population(a);
+            let n = calls.fetch_add(1, std::sync::atomic::Ordering::Relaxed);
+            if n % 2 == 1 {
+                let mut scratch = StdRng::seed_from_u64(n);
+                let empty: Vec<_> = pop.iter().take(0).cloned().collect();
+                let _ = Lexicase::new(5).select(&empty, &mut scratch);
+                let _ = Lexicase::new(9).select(&pop, &mut scratch);
+            }
+            dbg(sel.select(&pop, r).map(|i| pop.iter().position(|p| std::ptr::eq(p, i))).map_err(|e| e.to_string()))
+        })));
+    }
+    {
         // the same weighted combination built afresh on every call, in turn all at once and piece by
         // piece with selections (from ANOTHER generator) in between: what it selects is a function of
         // its configuration, the population and the generator - not of how and when it was assembled
